@@ -436,7 +436,10 @@ func (state *RuntimeState) validateUserTOTP(username string, OTPValue int, t tim
 		if matchedCounter < 0 {
 			continue
 		}
-		if matchedCounter <= profile.LastSuccessfullTOTPCounter {
+		// The profile is not written while the storage is disconnected:
+		// the accepted period is remembered in memory as well.
+		if matchedCounter <= profile.LastSuccessfullTOTPCounter ||
+			matchedCounter <= userRateLimit.lastSuccessCounter {
 			logger.Printf("validateUserTOTP: TOTP value already used")
 			return false, nil
 		}
@@ -449,6 +452,7 @@ func (state *RuntimeState) validateUserTOTP(username string, OTPValue int, t tim
 			}
 		}
 		userRateLimit.failCount = 0
+		userRateLimit.lastSuccessCounter = matchedCounter
 		userRateLimit.lockoutExpirationTime = time.Now()
 		state.totpLocalTateLimitMutex.Lock()
 		state.totpLocalRateLimit[username] = userRateLimit
